@@ -84,6 +84,8 @@ class Run:
                     self.do_call(i, op, self.faults[i] if self.faults else None)
                 else:
                     self.do_repeat3(i, op)
+            elif kind == 'soak_distinct':
+                self.do_soak(i, op)
             else:
                 if kind != 'resolve':
                     self.host.apply_host_op(op)
@@ -266,6 +268,59 @@ class Run:
         elif 'C08' in self.props:
             self.count('census:skipped(call did not return normally)')
 
+    # -- unbounded growth with distinct inputs ------------------------------------
+    @staticmethod
+    def word(j):
+        "j -> a distinct lower-case word without digits (digits would be parsed as values in CSS abbreviations)"
+        out = ''
+        j += 1
+        while j:
+            j, r = divmod(j - 1, 26)
+            out = chr(97 + r) + out
+        return 'x' + out     # (no built-in CSS snippet key starts with x: such a name stays unmatched and distinct)
+
+    def soak_abbr(self, kind, j):
+        w = self.word(j)
+        if kind == 'stylesheet':
+            return 'm%d+%s+p%d-%s+c#%03x+y%s:%s' % (j % 50, w, j % 7, w, j % 4096, w, w)
+        return 'ul.l%s>li.i%s*2>a[title=%s data-%s]{t %s}+%s' % (w, w, w, w, w, w)
+
+    def do_soak(self, i, op):
+        """warm + seg + seg calls with pairwise DISTINCT abbreviations on one config; what the library
+        keeps alive must stop growing: an unbounded memo / registry / 'seen' set keyed by the input is
+        per-call data kept alive (a cache bounded below ~1000 entries saturates in the first segment)"""
+        host = self.host
+        h = host.cfgs[op['cfg']]
+        kind = cfg_type(h.spec)
+        warm, seg = int(op.get('warm', 100)), int(op.get('seg', 1100))
+        marks = []
+        j = 0
+        for upto in (warm, warm + seg, warm + 2 * seg):
+            while j < upto:
+                outcome, info = host.call({'op': 'call', 'cfg': op['cfg'], 'abbr': self.soak_abbr(kind, j), 'pin': 0}, None)
+                del outcome
+                j += 1
+            inst, pay, _alive = census.instance_census(_roots(host))
+            marks.append((inst, pay, census.container_census()))
+        self.count('op:soak_distinct')
+        self.count('soak:distinct-calls', j)
+        self.events.append([i, 'soak_distinct', j])
+        self.shape.append(['soak_distinct', op['cfg'], None, 'ok'])
+        if 'C08' not in self.props:
+            return
+        for label, idx in (('instances', 0), ('payload', 1), ('containers', 2)):
+            a = census.growth(marks[0][idx], marks[1][idx])
+            b = dict((k, (x, y)) for k, x, y in census.growth(marks[1][idx], marks[2][idx]))
+            for k, x, y in a:
+                ga_ = y - x
+                if k in b:
+                    gb = b[k][1] - b[k][0]
+                    if gb >= 100 and gb >= 0.5 * ga_:
+                        self.violate('C08', 'leak', 'unbounded-%s:%s' % (label, k), i, {
+                            'cfg': op['cfg'], 'what': 'still growing at the same pace after %d calls with pairwise distinct abbreviations' % (warm + seg),
+                            'size after %d / %d / %d distinct calls' % (warm, warm + seg, warm + 2 * seg): [x, y, b[k][1]]})
+                        break
+
     # -- result -------------------------------------------------------------------
     def result(self):
         if self.c20 is not None:
@@ -287,4 +342,7 @@ class Run:
 
 
 def run_history(hist, refs, faults, props, opts=None):
+    import warnings
+    # (warnings the library may emit are not shown; filters and registries work as usual)
+    warnings.showwarning = lambda *a, **k: None
     return Run(hist, refs, faults, props, opts).execute()
